@@ -280,8 +280,25 @@ def check_rotate(rep):
     pos, ref = vec_atoms("pos_"), vec_atoms(refn)
     st = [e for e in fo.events if e["kind"] == "store"]
     ps = [e for e in st if e["target"] == "pos_"]
-    dp = [e for e in st if e["target"].replace(" ", "") == "Q_.segment(1,3)"]
-    qd = [e for e in st if e["target"].replace(" ", "") == "Q_.segment(4,5)"]
+    qt = [fl_["type"] for fl_ in FS.records.get(X + "StaticSite", {}).get("fields", []) if fl_["name"] == "Q_"]
+    mq = re.match(r"Eigen::Matrix<double, (\d+), 1", qt[0]) if qt else None
+    if not mq:
+        raise AnalysisBroken("StaticSite::Q_ is not a fixed-size Eigen vector (type %s)" % qt)
+    NQ = int(mq.group(1))
+
+    def part(t):
+        """(first, length) of the part of Q_ a store target names: segment(i, n), head(n), tail(n) on the fixed-size vector"""
+        t = t.replace(" ", "")
+        m_ = re.match(r"^Q_\.(segment|head|tail)\((\d+)(?:,(\d+))?\)$", t)
+        if not m_:
+            return None
+        k_, a_, b_ = m_.group(1), int(m_.group(2)), m_.group(3)
+        return (a_, int(b_)) if k_ == "segment" and b_ is not None else (0, a_) if k_ == "head" and b_ is None else (NQ - a_, a_) if k_ == "tail" and b_ is None else None
+    dp = [e for e in st if part(e["target"]) == (1, 3)]
+    qd = [e for e in st if part(e["target"]) == (4, 5)]
+    other_q = [e["target"] for e in st if e["target"].startswith("Q_") and part(e["target"]) not in ((1, 3), (4, 5))]
+    if other_q:
+        raise AnalysisBroken("StaticSite::Rotate writes parts of Q_ the rule does not interpret: %s" % other_q)
     ok, why = len(ps) == 1 and len(dp) == 1 and len(qd) == 1, "expected one update each of the position, the dipole part and the quadrupole part (found %d/%d/%d)" % (len(ps), len(dp), len(qd))
     if ok:
         want_pos = ref + R * (pos - ref)
